@@ -1780,13 +1780,17 @@ verify_changed(VB* self, PyObject* ignored)
     if (ro == NULL)
         return NULL;
 
-    self->_verify_generations = _generations_tuple(ro);
-    if (self->_verify_generations == NULL) {
+    /* Fetching a generation can run arbitrary code, including a nested
+       call of this method: only store the results afterwards, and release
+       whatever the nested call stored. */
+    t = _generations_tuple(ro);
+    if (t == NULL) {
         Py_DECREF(ro);
         return NULL;
     }
 
-    self->_verify_ro = ro;
+    Py_XSETREF(self->_verify_generations, t);
+    Py_XSETREF(self->_verify_ro, ro);
 
     Py_INCREF(Py_None);
     return Py_None;
@@ -1805,14 +1809,22 @@ _verify(VB* self)
 
     if (self->_verify_ro != NULL && self->_verify_generations != NULL) {
         PyObject* generations;
+        PyObject* ro = self->_verify_ro;
         int changed;
 
-        generations = _generations_tuple(self->_verify_ro);
+        /* Fetching a generation can run arbitrary code, including code
+           that replaces our tuples: keep the one we walk alive. */
+        Py_INCREF(ro);
+        generations = _generations_tuple(ro);
+        Py_DECREF(ro);
         if (generations == NULL)
             return -1;
 
-        changed = PyObject_RichCompareBool(
-          self->_verify_generations, generations, Py_NE);
+        if (self->_verify_generations == NULL)
+            changed = 1;
+        else
+            changed = PyObject_RichCompareBool(
+              self->_verify_generations, generations, Py_NE);
         Py_DECREF(generations);
         if (changed == -1)
             return -1;
